@@ -11,20 +11,20 @@ Section SnepProofs.
   Variable A : Type.
   Variable app_put : A -> list Z -> A * Z.
   Variable app_get : A -> list Z -> A * getres.
-  Variables decodable dec_crash complete cpl_crash : list Z -> bool.
+  Variables decodable complete : list Z -> bool.
   Variable miu_cs miu_sc max_acc : Z.
   Hypothesis Hmiu_cs : 6 <= miu_cs.
   Hypothesis Hmiu_sc : 6 <= miu_sc.
 
-  Notation sreact := (snep_sys_react A app_put app_get decodable dec_crash miu_sc max_acc).
-  Notation sreact0 := (snep_react A app_put app_get decodable dec_crash max_acc miu_sc).
-  Notation creact := (cl_react complete cpl_crash miu_cs).
+  Notation sreact := (snep_sys_react A app_put app_get decodable miu_sc max_acc).
+  Notation sreact0 := (snep_react A app_put app_get decodable max_acc miu_sc).
+  Notation creact := (cl_react complete miu_cs).
   Notation mks := (Build_srv A).
   Notation mkc := Build_csess.
   Notation G := (mkg csess (srv A)).
   Notation runS := (run csess (srv A) creact sreact list_chan miu_cs miu_sc).
-  Notation respond' := (respond A app_put app_get decodable dec_crash miu_sc).
-  Notation process' := (process_snep_request A app_put app_get decodable dec_crash).
+  Notation respond' := (respond A app_put app_get decodable miu_sc).
+  Notation process' := (process_snep_request A app_put app_get decodable).
 
   Definition hdr (rq L : Z) : list Z :=
     [16; rq; L / 16777216 mod 256; L / 65536 mod 256; L / 256 mod 256; L mod 256].
@@ -145,14 +145,14 @@ Section SnepProofs.
   Proof. intros E Hnd. cbn [start_ops]. rewrite E. destruct st; try reflexivity. exfalso. eapply Hnd; reflexivity. Qed.
 
   Lemma creact_go st p r i st' outs :
-    client_react complete cpl_crash st i = (st', outs) -> st <> CIdle -> (forall x, st' <> CDone x) ->
+    client_react complete st i = (st', outs) -> st <> CIdle -> (forall x, st' <> CDone x) ->
     creact (mkc st p r) i = (mkc st' p r, map IMsg outs).
   Proof.
     intros E Hni Hnd. unfold cl_react, csess_react. cbn [c_cur c_pending c_results].
     destruct st; try congruence; rewrite E; destruct st'; try reflexivity; exfalso; eapply Hnd; reflexivity.
   Qed.
   Lemma creact_done st p r i x outs :
-    client_react complete cpl_crash st i = (CDone x, outs) -> st <> CIdle ->
+    client_react complete st i = (CDone x, outs) -> st <> CIdle ->
     creact (mkc st p r) i = (fst (start_ops miu_cs p (r ++ [x])), map IMsg outs ++ snd (start_ops miu_cs p (r ++ [x]))).
   Proof.
     intros E Hni. unfold cl_react, csess_react. cbn [c_cur c_pending c_results].
@@ -697,8 +697,7 @@ Section SnepProofs.
     rewrite !andb_false_r. cbn [app].
     unfold respond, process_snep_request. cbn [hdr app sv_app sv_log].
     change (2 =? 1) with false. cbn [andb]. change (2 =? 2) with true. cbv iota. rewrite Hdec.
-    destruct (dec_crash part); cbn [mk_response]; repeat split; try reflexivity;
-      unfold mk_response; cbn; destruct (6 <=? miu_sc); reflexivity.
+    repeat split; try reflexivity; unfold mk_response; cbn; destruct (6 <=? miu_sc); reflexivity.
   Qed.
 
   (* the executable schedule (client first) reaches the same end *)
